@@ -1,7 +1,7 @@
 CONSTANTS
   Driver = "poll"
   Shapes <- ShapesMCThorough
-  MaxSteps = 8
+  MaxSteps = 7
   MaxCancel = 2
   MaxFeed = 2
   Eager = FALSE
